@@ -9,7 +9,7 @@ import re
 import subprocess
 import sys
 
-WT = "/tmp/seed/verify"
+WT = os.environ.get("SEEDVERIFY_WT", "/tmp/seed/verify")
 ENV = dict(os.environ, CARGO_NET_OFFLINE="true")
 BASE = set(json.load(open("/root/.vp/BASELINE.json"))["stable_pass"])
 
